@@ -94,6 +94,13 @@ CHECKS = {
             "the limit must keep HG and free-cysteine parameters.",
             "Trusted: distances recomputed from the 3-decimal file coordinates; clusters of three sulfurs are outside "
             "the property's premise and only counted.", "DESIGN.md#c13"),
+    "C11": ("exploration", "history checker: PQR bytes of in-process run histories (forced A-B-A and A-fail-A) and of fresh processes under several hash seeds must equal a fresh-process reference; module-state fingerprint as witness material",
+            "Every configuration of a random pool (structures x options incl. propka, user force fields, failing "
+            "inputs) is run in new interpreters under PYTHONHASHSEED 0/1/2/random and inside in-process histories of "
+            "8-24 runs; every successful step must reproduce the fresh-process digest byte for byte. A deep "
+            "fingerprint of pdb2pqr module/class state is taken around every run and reported, but never decides.",
+            "Trusted: sha1 of the PQR bytes; the observable is the PQR file only. Histories explore sequences of "
+            "length <= 24 over pools of <= 5 configurations per case.", "DESIGN.md#c11"),
 }
 
 NOT_APPLICABLE = {}
